@@ -164,7 +164,9 @@ def norm(v):
     if isinstance(v, bool):
         return ("b", v)
     if isinstance(v, float):
-        return ("f", v)  # 40.0 is not 40: the type of a value is part of the value
+        return ("f", repr(v))  # 40.0 is not 40, -0.0 is not 0.0: type and sign are part of it
+    if isinstance(v, bytes):
+        return ("y", v.decode("latin-1"))
     if isinstance(v, (int, str)) or v is None:
         return v
     return ("obj", type(v).__name__)
